@@ -27,7 +27,7 @@ def run(repo: Repo, chk: Check) -> None:
     chk.scope_decides = (
         "for the call-graph closure of the two unprotect functions up to (not including) DC lookup / GetKey RPC: O1 every explicit raise is "
         "ValueError, NotImplementedError or the ASN.1 not-enough-data error; every primitive that can raise an internal error (index into a "
-        "sequence, struct.unpack, int.to_bytes, dict subscript) is shown safe by a dominating guard, a value-range proof (intervals seeded with "
+        "sequence, struct.unpack / Struct.unpack_from incl. class-level Structs and offsets, int.to_bytes, dict subscript, datetime / timedelta construction from decoded numbers) is shown safe by a dominating guard, a value-range proof (intervals seeded with "
         "the wire field widths and the SID grammar) or a length summary; O2 every loop has a termination/bounded-work certificate (KDF walks "
         "<= 31 steps each, parser loops consume input), and the region has no recursion; no handler turns an error into a silent result."
     )
